@@ -83,6 +83,11 @@ static PDU* extra(int id, vh::Rng& rng, Entry& e) {
     case 133: { PPPoE p; p.code(0x65); p.session_id((uint16_t)(1 + rng.below(65535))); p.service_name("svc"); return (eth0() / p).clone(); }
     case 134: { PPPoE p; p.code(0xa7); p.session_id((uint16_t)(1 + rng.below(65535))); p.generic_error("bye"); return (eth0() / p).clone(); }
     case 135: { PPPoE p; p.code(0xa7); p.session_id((uint16_t)(1 + rng.below(65535))); p.host_uniq(std::vector<uint8_t>(3, 0x5a)); return (eth0() / Dot1Q(12) / p).clone(); }
+    // VLAN tags that do not pad by themselves (append_padding off, as every parsed tag is) above a short payload: the
+    // Ethernet layer has to bring the frame to the minimum
+    case 136: { Dot1Q q(5, false); return (eth0() / q / ip0() / UDP(7, 9) / raw(rng, rng.range(0, 12))).clone(); }
+    case 137: { Dot1Q q1(7); q1.append_padding(false); Dot1Q q2(8, false); return (eth0() / q1 / q2 / ARP("192.0.2.1", "192.0.2.2", "00:aa:bb:cc:dd:ee", "00:11:22:33:44:55")).clone(); }
+    case 138: { Dot1Q q(5, false); EthernetII parsed; { Bytes b0 = (eth0() / q / ip0() / UDP(7, 9) / raw(rng, rng.range(0, 12))).serialize(); parsed = EthernetII(&b0[0], (uint32_t)b0.size()); } return parsed.clone(); }
     // ---- C02 only (the dissector of C05 has nothing to say about them): a PDUCacher with layers stacked below it, and objects
     //      whose type was changed after extensions / options had been added
     // (a transport layer directly below a PDUCacher<IP> is not generated: TCP/UDP tins_cast their parent to IP, and the wrapper
@@ -102,6 +107,19 @@ static void scenario(const vh::Json& sc, vh::Out& out, vh::Rng& rng, const vh::A
     dirty_stack(0xA5);
     std::unique_ptr<PDU> p(id < 100 ? catalogue(id, rng, e) : extra(id, rng, e));
     if (!p) throw std::runtime_error("no such composition");
+    // re-linking history: composition `id` is serialised (which fills whatever its layers cache and derive), then the layers
+    // below depth `d` are replaced by those of composition `re`; what is judged is the serialisation AFTER the change
+    const bool relinked = sc.has("re");
+    if (relinked) {
+        int re = (int)sc["re"].num(), d = (int)sc["d"].num(); Entry e2;
+        std::unique_ptr<PDU> b(re < 100 ? catalogue(re, rng, e2) : extra(re, rng, e2));
+        if (!b) throw std::runtime_error("no such composition");
+        try { p->serialize(); } catch (std::exception&) {}
+        PDU* x = p.get(); PDU* y = b.get();
+        for (int i = 0; i < d && x && y; ++i) { x = x->inner_pdu(); y = y->inner_pdu(); }
+        if (!x || !y || !y->inner_pdu()) throw std::runtime_error("infeasible relink");
+        x->inner_pdu(y->release_inner_pdu());
+    }
     // input class of ICMP / ICMPv6 error messages (for the signatures of known findings): is the RFC 4884 length attribute
     // requested, how many extension objects, does the original datagram end on a word boundary
     bool lenattr = false, unaligned = false; long next = 0;
@@ -131,7 +149,7 @@ static void scenario(const vh::Json& sc, vh::Out& out, vh::Rng& rng, const vh::A
     w.kv("clone_same", clone_same);
     // the same composition built a second time from the same values over a differently filled stack: operator/ and clone()
     // make copies of the layers; if a copy did not equal its source the two results would differ
-    bool rebuild_same = false; try { vh::Rng r2 = rng0; Entry e2; dirty_stack(0x5A); std::unique_ptr<PDU> p2(id < 100 ? catalogue(id, r2, e2) : extra(id, r2, e2)); rebuild_same = p2 && p2->serialize() == b; } catch (std::exception&) {}
+    bool rebuild_same = relinked; if (!relinked) try { vh::Rng r2 = rng0; Entry e2; dirty_stack(0x5A); std::unique_ptr<PDU> p2(id < 100 ? catalogue(id, r2, e2) : extra(id, r2, e2)); rebuild_same = p2 && p2->serialize() == b; } catch (std::exception&) {}
     w.kv("rebuild_same", rebuild_same);
     // C04: "Parsing the packet's serialization with libtins yields the same layers ... and payload": the layers libtins dissects
     // on its own (everything down to the transport / leaf layer) must come back with the same classes, and the parsed packet
